@@ -369,7 +369,7 @@ class Sim:
 
     def __init__(self, flavour="oo", *, storage="mock", smart=False, roots=("/local", "/remote"),
                  use_root_oids=False, aging=0.0, resolver=None, prioritize=None, translate=None,
-                 rng=None, clock=True, sqlite_path=None, handler=None, quota=None):
+                 rng=None, clock=True, sqlite_path=None, handler=None, quota=None, hash_funcs=(None, None)):
         self.flavour = flavour
         self.rng = rng or random.Random(0)
         self.world = World()
@@ -395,8 +395,8 @@ class Sim:
             self._saved_time = _vclock.install(self.clock)
         fl, fr = FLAVOUR[flavour[0]], FLAVOUR[flavour[1]]
         self.providers = (
-            MockProvider(fl[0], fl[1], filter_events=fl[2], quota=quota),
-            MockProvider(fr[0], fr[1], filter_events=fr[2], quota=quota),
+            MockProvider(fl[0], fl[1], filter_events=fl[2], quota=quota, hash_func=hash_funcs[0]),
+            MockProvider(fr[0], fr[1], filter_events=fr[2], quota=quota, hash_func=hash_funcs[1]),
         )
         self.providers[0].name += "-l"
         self.providers[1].name += "-r"
